@@ -26,6 +26,7 @@ Families
 """
 import itertools
 import json
+import os
 
 from vt.core import Part, pmap, rotate, stable_hash, HarnessBroken
 from vt.scan import c10_blocks as B
@@ -119,6 +120,16 @@ def models_A():
         m = _skeleton(B.I, [['skip', None]])
         m['ident'] = ident
         out.append(m)
+    for ident in (['action', 'FooBar', 'win.close-all'], ['section', 'foo_bar', None]):
+        m = _skeleton(B.I, [])
+        m['ident'] = ident
+        out.append(m)
+    # plain symbols whose names merely begin like the SECTION / action identifier forms
+    for name in ('SECTION_COUNT', 'ACTION_FLAGS'):
+        for ann in ([], [['skip', None]], [['value', ['list', ['5']]], ['attributes', ['dict', [['my.key', 'val']]]]]):
+            m = _skeleton(B.I, ann)
+            m['ident'] = ['symbol', name, None]
+            out.append(m)
     return out
 
 
@@ -236,6 +247,9 @@ def check_case(model, lay):
             kind = 'roundtrip'
             if model['ident'][0] == 'action' and (v2 is None or v2['name'] != raw['name']):
                 kind = 'roundtrip-action'
+            elif model['ident'][0] == 'symbol' and model['ident'][1].startswith(('SECTION', 'ACTION')) \
+                    and v2 is not None and dict(v2, ann=None) == dict(raw, ann=None):
+                kind = 'roundtrip-prefix'
             problems.append((kind, 'write(indent=%s) then parse gives a different block: %s' % (
                 indent, exc2 or _diff(raw, v2)), dict(info, written=w, reparsed=v2, first=raw)))
     return problems, evals, got
@@ -265,6 +279,7 @@ _CACHE = {}
 def _work(chunk):
     family, tier, start, stop = chunk
     part = Part()
+    _REPARSE.clear()            # per chunk, so that counts do not depend on which worker gets which chunk
     key = (family, tier)
     if key not in _CACHE:
         _CACHE[key] = (_family_models(family, tier), layouts_for(family, tier))
@@ -287,8 +302,13 @@ def _work(chunk):
             if got is not None:
                 part.outcome(stable_hash(got)[:12])
             for kind, desc, info in problems:
-                if kind == 'roundtrip-action':
+                if model['ident'][0] == 'symbol' and model['ident'][1].startswith('SECTION') and (
+                        (got or {}).get('name', '').startswith('SECTION:') or 'SECTION:' in desc):
+                    k = 'ident:symbol-beginning-with-SECTION-read-as-section'
+                elif kind == 'roundtrip-action':
                     k = 'roundtrip:action-identifier'
+                elif kind == 'roundtrip-prefix':
+                    k = 'roundtrip:symbol-named-like-section-or-action'
                 else:
                     k = '%s:%s:%s:%s' % (kind, family, mh, lay_key(lay))
                 part.violation(k, desc, {'model': model, 'layout': lay, 'info': info})
@@ -337,7 +357,12 @@ def run(ctx):
     ctx.set(calibration=cal)
     bounds = {}
     chunks = []
+    only = [f for f in os.environ.get('VERIF_FAMILIES', '').split(',') if f]
+    if only:
+        ctx.cap('family filter VERIF_FAMILIES=%s (debugging aid; default runs all families)' % ','.join(only))
     for family in ('A', 'P', 'B'):
+        if only and family not in only:
+            continue
         models = _family_models(family, tier)
         lays = layouts_for(family, tier)
         bounds['family_%s' % family] = {'models': len(models), 'layouts_per_model': len(lays)}
@@ -364,7 +389,7 @@ def run(ctx):
         'trusted: vt/scan/c10_blocks.py reference grammar, calibrated on %d/%d upstream corpus cases' % (
             cal['reference_agrees_with_upstream_tree'], cal['corpus_cases']),
     ]
-    if len(ctx._outcomes) < 50 or ctx.cov['traces_validated_against_impl'] < 1000:
+    if not only and (len(ctx._outcomes) < 50 or ctx.cov['traces_validated_against_impl'] < 1000):
         raise HarnessBroken('vacuous exploration: %d outcomes' % len(ctx._outcomes))
 
 
